@@ -25,14 +25,16 @@ FACETS = ('compile-failed', 'json-syntax', 'keyset', 'meta', 'entry', 'name', 'c
           'maxaccess', 'units', 'revisions', 'lastupdated', 'productrelease')
 
 
-def _profile():
+def _profile(texts='short'):
     return setcheck.profile_for(None, backends=('json',), dialects=('v2', 'v2', 'v2', 'v1'), modules=(1, 2),
-                                decls=(5, 40), texts='short', skipblocks=True)
+                                decls=(5, 40), texts=texts, skipblocks=True)
 
 
 @st.composite
 def cases(draw):
-    return {'mset': draw(mibgen.module_sets(_profile())), 'genTexts': draw(st.booleans())}
+    # a quarter of the sets carries texts full of characters that JSON must escape (validity of the document)
+    texts = draw(st.sampled_from(('short', 'short', 'short', 'nasty')))
+    return {'mset': draw(mibgen.module_sets(_profile(texts))), 'genTexts': draw(st.booleans())}
 
 
 @st.composite
